@@ -282,6 +282,8 @@ class Interp:
             base = self.ev(target.value, env)
             if isinstance(base, dict):
                 base[target.attr] = value
+            elif "__setattr__" in self.prims:
+                self.prims["__setattr__"](base, target.attr, value)
             else:
                 raise AnalysisError(f"absint: unsupported attribute store {src(target)}")
         else:
@@ -545,8 +547,10 @@ class Interp:
                 return base.params["width"]
         if isinstance(base, (list, dict, str, tuple)) and attr in ("append", "extend", "items", "keys", "values", "get", "bit_length", "pop", "insert", "index", "copy", "format"):
             return getattr(base, attr)
-        if isinstance(base, int) and attr == "bit_length":
-            return base.bit_length
+        if isinstance(base, int) and attr in ("bit_length", "bit_count"):
+            return getattr(base, attr)
+        if isinstance(base, slice) and attr in ("start", "stop", "step"):
+            return getattr(base, attr)
         f = self.prims.get("__getattr__")
         if f is not None:
             return f(base, attr)
